@@ -253,10 +253,10 @@ def roundtrip_check(acc):
 
 
 MALFORMED = {
-    "ParseTimeout": ["abc", "5x", "ms", "s", "1..5s", "ten", "5d", "1,5s", "--", "1s2"],
-    "ParseErrorCodes": ["", ",", "abc", "0x", "{1}", "*,1", "1;2", "0x01 0x02"],
+    "ParseTimeout": ["abc", "5x", "ms", "s", "1..5s", "ten", "5d", "1,5s", "--", "1s2", "-5s", "-1", "nan", "nans", "inf", "infms", "1e400s", "5sms", "10ss", "2mm", "1hh"],
+    "ParseErrorCodes": ["", ",", "abc", "0x", "{1}", "*,1", "1;2", "0x01 0x02", "-1", "1,-2", "0x-1", str(2**256)],
     "ParseArrayLengths": ["x", "x=", "x={1,2", "x=1,2}", "=3", "x={a}", "x=1;y=2", "x={}", "x=={1}", "{1,2}"],
-    "ParseCSVInt": ["", ",", "a,b", "1;2", "1.5", "0x10"],
+    "ParseCSVInt": ["", ",", "a,b", "1;2", "1.5", "0x10", "-1", "1,-2"],
     "ParseCSVTraceEvent": ["FOO", "LOG,FOO", "log", "LOG;SSTORE"],
 }
 
